@@ -437,3 +437,34 @@ def install(root="htstabilizer", which=("f2", "layer", "predicates")):
             bound["Stabilizer." + name] = 1
     _INSTALLED[root] = bound
     return bound
+
+
+# ------------------------------------------------------------------------------------------------
+# the repository's own tests as an extra workload under the contracts
+
+def run_repo_tests(which, test_files, timeout=1500):
+    """Run the named test files of the repository with the contracts attached (see pytest_plugin.py).
+    -> (log entries, evaluation counters, pytest exit status) or None when it could not be run."""
+    import json
+    import os
+    import subprocess
+    import tempfile
+    from .. import env
+    fd, path = tempfile.mkstemp(prefix="hvcontracts_", suffix=".json")
+    os.close(fd)
+    try:
+        e = dict(os.environ, PYTHONPATH=env.VERIF + os.pathsep + os.environ.get("PYTHONPATH", ""), HV_CONTRACT_LOG=path,
+                 HV_CONTRACTS=",".join(which), PYTHONDONTWRITEBYTECODE="1")
+        subprocess.run([env.PY, "-m", "pytest", "-q", "-p", "no:cacheprovider", "-p", "hv.monitor.pytest_plugin", "-x", "--timeout=1200"] +
+                       [os.path.join("tests", t) for t in test_files], cwd=env.REPO, env=e, capture_output=True, text=True, timeout=timeout)
+        if os.path.getsize(path) == 0:
+            return None
+        d = json.load(open(path))
+        return d["log"], d["evals"], d["exitstatus"]
+    except Exception:           # noqa: BLE001
+        return None
+    finally:
+        try:
+            os.remove(path)
+        except OSError:
+            pass
